@@ -367,8 +367,24 @@ macro_rules! prefix_harness2 {
         }
     };
 }
-prefix_harness2!(c20_prefix_blk_len0, 6, b'$', b'0');
+prefix_harness2!(c20_prefix_blk0_all, 6, b'$', b'0');
 prefix_harness2!(c20_prefix_blk_len1, 7, b'$', b'1');
+/// quick-tier instance: only the two split points around the trailer of "$0\r\n" + 2 bytes
+/// (before the trailer, and between its CR and LF); all five split points are c20_prefix_blk0_all
+#[kani::proof]
+#[kani::unwind(8)]
+#[kani::stub(alloc::fmt::format, fmt_stub)]
+#[kani::stub(parse_array, cut_assume)]
+#[kani::stub(parse_double, cut_assume)]
+#[kani::stub(parse_map, cut_assume)]
+#[kani::stub(parse_set, cut_assume)]
+fn c20_prefix_blk0_trailer() {
+    let mut data: [u8; 6] = kani::any();
+    data[0] = b'$';
+    data[1] = b'0';
+    prefix_lemma_opt::<6>(data, 4, false);
+    prefix_lemma_opt::<6>(data, 5, false);
+}
 
 // ---------------------------------------------------------------- allocation obligation
 // "never reserves memory according to a declared length it has not received": inside the
